@@ -122,7 +122,13 @@ D(i, c) == <<[i |-> i, c |-> c]>>
 \* 3*2^60, -3*2^60, 2^-60 (lost by float addition), 0.5 twice = a carry, 1 + 2^-15
 DVals == {P(D(76, 3)), P(D(76, -3)), V(D(68, 1), CA), P(D(71, 16384))}
 DValsMore == DVals \cup {V(<<[i |-> 71, c |-> 1], [i |-> 72, c |-> 1]>>, CB), P(D(72, 32767))}
-VecVals == {P(<<0, 2>>), V(<<-2, 1>>, CA), V(<<3, 3>>, CB)}
+\* a vector is a flow value whose data is a tuple of component flow values (Vectorize fills data[i])
+VecVals(vs) ==
+  CASE vs = "num2" -> {P(<<P(0), P(2)>>), V(<<P(-2), P(1)>>, CA), V(<<P(3), P(3)>>, CB)}
+    [] vs = "num3" -> {P(<<P(0), P(2), P(1)>>), V(<<P(-2), P(1), P(4)>>, CA), V(<<P(3), P(3), P(-1)>>, CB)}
+    [] vs = "pair2" -> {P(<<V(1, CA), V(5, CA)>>), P(<<V(2, CB), V(6, CA)>>), V(<<V(3, CA), V(7, CB)>>, CN)}
+    [] vs = "mixed3" -> {P(<<P(1), P(2), P(3)>>), V(<<V(4, CA), V(0, CB), P(-1)>>, CB), V(<<P(2), P(2), P(2)>>, CA)}
+Pad == [pad |-> TRUE]      \* None: padding of the shorter components (zip_longest)
 HistVals == {P(0), V(1, CA), P(-1), V(3, CB)}
 HistValsMore == HistVals \cup {P(2), V(2, E)}
 Hist2Vals == {P(<<0, 0>>), V(<<2, 3>>, CA), P(<<1, 4>>), V(<<-1, 1>>, CB)}
@@ -132,7 +138,7 @@ ValsOf(k) ==
   CASE k.t = "DSum" -> IF Wide THEN DValsMore ELSE DVals
     [] k.t = "Mean" -> IF k.inner = "DSum" THEN (IF Wide THEN DValsMore ELSE DVals)
                        ELSE (IF Wide THEN NumValsMore ELSE NumVals)
-    [] k.t = "Vec" -> VecVals
+    [] k.t = "Vec" -> VecVals(k.vs)
     [] k.t = "Hist" -> IF Wide THEN HistValsMore ELSE HistVals
     [] k.t = "Hist2" -> Hist2Vals
     [] k.t = "Graph" -> GraphVals
@@ -144,10 +150,17 @@ Count0 == [t |-> "Count", name |-> "count", start |-> 0]
 Count2 == [t |-> "Count", name |-> "n2", start |-> 2]
 Sum0 == [t |-> "Sum", start |-> 0]
 Sum5 == [t |-> "Sum", start |-> 5]
-DSumK == [t |-> "DSum"]
+DSumK == [t |-> "DSum", dstart |-> <<>>]
+DSum5 == [t |-> "DSum", dstart |-> D(72, 5)]          \* DSum(total=5)
 MeanK(inner, poe) == [t |-> "Mean", inner |-> inner, poe |-> poe]
-VMC(corr, poe) == [t |-> "VMC", corr |-> corr, poe |-> poe]
-Vec(inner) == [t |-> "Vec", inner |-> inner]
+\* Mean.inner: "py" (no sum_seq), "DSum" / "Sum" (sum_seq = DSum() / Sum()), "Sum2" (sum_seq yields two
+\* values: Split([Sum(), Sum()]); all are yielded, only the first is divided; such a Mean has no reset)
+VMCg(corr, poe, given) == [t |-> "VMC", corr |-> corr, poe |-> poe, given |-> given]
+VMC(corr, poe) == VMCg(corr, poe, FALSE)       \* given: sum_sq = Sum(), sum_ = Sum() passed explicitly
+\* Vectorize(seq, dim=n) (form "dim": n copies of one element) or Vectorize([seq1, ..]) (form "list");
+\* cons = "named": construct = a namedtuple class; vs: the vectors it is filled with
+VecOf(inners, form, cons, vs) == [t |-> "Vec", inners |-> inners, form |-> form, cons |-> cons, vs |-> vs]
+Vec(inner) == VecOf(<<inner, inner>>, "dim", "tuple", "num2")
 Store(grp) == [t |-> "Store", grp |-> grp]
 GroupByK(by) == [t |-> "GroupBy", by |-> by]
 Hist(var) == [t |-> "Hist", var |-> var, edges |-> <<0, 1, 2, 3>>,
@@ -155,18 +168,43 @@ Hist(var) == [t |-> "Hist", var |-> var, edges |-> <<0, 1, 2, 3>>,
                          [] var = "make" -> <<5, 5, 5>> [] var = "iv" -> <<7, 7, 7>>]
 Hist2 == [t |-> "Hist2", edges |-> <<0, 1, 2, 3>>, edges2 |-> <<0, 2, 4>>,
           init2 |-> <<<<0, 0>>, <<0, 0>>, <<0, 0>>>>]
-GraphK(scale, sort) == [t |-> "Graph", scale |-> scale, sort |-> sort]
+GraphI(scale, sort, ipts, ictx) == [t |-> "Graph", scale |-> scale, sort |-> sort, ipts |-> ipts, ictx |-> ictx]
+GraphK(scale, sort) == GraphI(scale, sort, <<>>, E)
 AllKinds == {Count0, Count2, Sum0, Sum5, DSumK,
              MeanK("py", FALSE), MeanK("py", TRUE), MeanK("DSum", FALSE),
              VMC(TRUE, FALSE), VMC(FALSE, FALSE), VMC(TRUE, TRUE),
              Vec(Sum0), Vec(MeanK("py", FALSE)),
+             DSum5, MeanK("Sum", FALSE), MeanK("Sum2", TRUE), VMCg(TRUE, FALSE, TRUE),
+             VecOf(<<Sum0, Sum0, Sum0>>, "dim", "tuple", "num3"),
+             VecOf(<<Sum0, Sum0>>, "dim", "named", "num2"),
+             VecOf(<<Store(FALSE), Sum0>>, "list", "tuple", "num2"),
+             VecOf(<<GroupByK("a"), GroupByK("a")>>, "list", "tuple", "pair2"),
+             VecOf(<<MeanK("py", TRUE), Sum0>>, "list", "tuple", "num2"),
+             VecOf(<<Sum0, MeanK("py", FALSE)>>, "list", "tuple", "num2"),
+             VecOf(<<Store(TRUE), Count0, Sum5>>, "list", "tuple", "mixed3"),
+             GraphI(None, TRUE, <<<<1, 7>>, <<0, 3>>>>, CA),
              Store(TRUE), Store(FALSE), GroupByK("all"), GroupByK("a"),
              Hist("plain"), Hist("bins"), Hist("make"), Hist("iv"), Hist2,
              GraphK(None, TRUE), GraphK(None, FALSE), GraphK(2, TRUE)}
 
+\* thorough tier only
+MoreKinds == {VecOf(<<Sum0, Store(FALSE)>>, "list", "tuple", "num2"),
+              VecOf(<<Store(FALSE), Store(TRUE)>>, "list", "tuple", "pair2"),
+              VecOf(<<GroupByK("a"), GroupByK("all"), Count2>>, "list", "tuple", "mixed3a"),
+              VecOf(<<VMC(TRUE, FALSE), Sum0>>, "list", "tuple", "num2"),
+              VecOf(<<MeanK("py", TRUE), MeanK("py", TRUE), Store(FALSE)>>, "dim3", "tuple", "num3"),
+              MeanK("Sum", TRUE), MeanK("Sum2", FALSE), VMCg(FALSE, TRUE, TRUE),
+              GraphI(2, FALSE, <<<<1, 7>>, <<0, 3>>>>, CS)}
+ThoroughKinds == AllKinds \cup MoreKinds
+RECURSIVE FreshKind(_)
 FreshKind(k) == CASE k.t = "Count" -> [k EXCEPT !.start = 0]
                   [] k.t = "Sum" -> [k EXCEPT !.start = 0]
+                  [] k.t = "DSum" -> [k EXCEPT !.dstart = <<>>]
+                  [] k.t = "Vec" -> [k EXCEPT !.inners = [i \in 1..Len(k.inners) |-> FreshKind(k.inners[i])]]
+                  [] k.t = "Graph" -> [k EXCEPT !.ipts = <<>>, !.ictx = E]
                   [] OTHER -> k
+HasReset(k) == ~(k.t = "Mean" /\ k.inner = "Sum2")
+MeanPoly(k) == k.inner = "DSum"
 
 (***************************************************************************)
 (* Operational part.                                                       *)
@@ -175,15 +213,15 @@ RECURSIVE InitState(_)
 InitState(k) ==
   CASE k.t = "Count" -> [n |-> k.start, ctx |-> E]
     [] k.t = "Sum" -> [total |-> k.start, ctx |-> E]
-    [] k.t = "DSum" -> [total |-> <<>>, ctx |-> E]
+    [] k.t = "DSum" -> [total |-> PolyOf(k.dstart), ctx |-> E]
     [] k.t = "Mean" -> [sum |-> IF k.inner = "DSum" THEN <<>> ELSE 0, count |-> 0, ctx |-> E]
     [] k.t = "VMC" -> [sumsq |-> 0, sum |-> 0, count |-> 0, ctx |-> E]
-    [] k.t = "Vec" -> [els |-> <<InitState(k.inner), InitState(k.inner)>>, ctx |-> E]
+    [] k.t = "Vec" -> [els |-> [i \in 1..Len(k.inners) |-> InitState(k.inners[i])], ctx |-> E]
     [] k.t = "Store" -> [group |-> <<>>]
     [] k.t = "GroupBy" -> [groups |-> <<>>]
     [] k.t = "Hist" -> [bins |-> InitBins(k), oor |-> 0, ctx |-> E]
     [] k.t = "Hist2" -> [bins |-> k.init2, oor |-> 0, ctx |-> E]
-    [] k.t = "Graph" -> [points |-> <<>>, ctx |-> E, scale |-> k.scale]
+    [] k.t = "Graph" -> [points |-> k.ipts, ctx |-> k.ictx, scale |-> k.scale]
 
 RECURSIVE FillState(_, _, _)
 FillState(k, s, v) ==
@@ -193,7 +231,7 @@ FillState(k, s, v) ==
     [] k.t = "Mean" -> [sum |-> IF k.inner = "DSum" THEN PolyAdd(s.sum, PolyOf(v.d)) ELSE s.sum + v.d,
                         count |-> s.count + 1, ctx |-> v.c]
     [] k.t = "VMC" -> [sumsq |-> s.sumsq + v.d * v.d, sum |-> s.sum + v.d, count |-> s.count + 1, ctx |-> v.c]
-    [] k.t = "Vec" -> [els |-> [i \in 1..2 |-> FillState(k.inner, s.els[i], P(v.d[i]))], ctx |-> v.c]
+    [] k.t = "Vec" -> [els |-> [i \in 1..Len(k.inners) |-> FillState(k.inners[i], s.els[i], v.d[i])], ctx |-> v.c]
     [] k.t = "Store" -> [group |-> Append(s.group, v)]
     [] k.t = "GroupBy" ->
          LET key == GKey(k, v) IN
@@ -224,7 +262,8 @@ Result(k, s) ==
     [] k.t = "DSum" -> Ok(<<Out(PolySeq(s.total), s.ctx)>>)
     [] k.t = "Mean" ->
          IF s.count = 0 THEN (IF k.poe THEN Ok(<<>>) ELSE ZeroDiv)
-         ELSE Ok(<<Out([s |-> IF k.inner = "DSum" THEN PolySeq(s.sum) ELSE s.sum, n |-> s.count], s.ctx)>>)
+         ELSE Ok(<<Out([s |-> IF k.inner = "DSum" THEN PolySeq(s.sum) ELSE s.sum, n |-> s.count], s.ctx)>>
+                 \o (IF k.inner = "Sum2" THEN <<Out(s.sum, s.ctx)>> ELSE <<>>))
     [] k.t = "VMC" ->
          IF s.count = 0 THEN (IF k.poe THEN Ok(<<>>) ELSE ZeroDiv)
          ELSE IF k.corr /\ s.count = 1 THEN ZeroDiv
@@ -234,9 +273,13 @@ Result(k, s) ==
                         vden |-> IF k.corr THEN n * n * (n - 1) ELSE n * n * n,
                         s |-> s.sum, n |-> n], s.ctx)>>)
     [] k.t = "Vec" ->
-         LET rs == [i \in 1..2 |-> Result(k.inner, s.els[i])] IN
-         IF \E i \in 1..2 : ~rs[i].ok THEN Exc("Any")
-         ELSE Ok([j \in 1..Len(rs[1].out) |-> Out(<<rs[1].out[j].d, rs[2].out[j].d>>, s.ctx)])
+         \* zip_longest of the components' compute(): the longest output, the others padded with None;
+         \* an exception of a component is raised by the first next()
+         LET n == Len(k.inners)
+             rs == [i \in 1..n |-> Result(k.inners[i], s.els[i])] IN
+         IF \E i \in 1..n : ~rs[i].ok THEN Exc("Any")
+         ELSE Ok([j \in 1..SetMax({Len(rs[i].out) : i \in 1..n}) |->
+                    Out([i \in 1..n |-> IF j <= Len(rs[i].out) THEN rs[i].out[j] ELSE Pad], s.ctx)])
     [] k.t = "Store" -> IF k.grp THEN Ok(<<P(s.group)>>) ELSE Ok(s.group)
     [] k.t = "GroupBy" -> Ok([j \in 1..Len(s.groups) |-> P(s.groups[j].vals)])
     [] k.t \in {"Hist", "Hist2"} -> Ok(<<V([bins |-> s.bins, oor |-> s.oor], s.ctx)>>)
@@ -260,7 +303,7 @@ ResetState(k, s) ==
     [] k.t = "DSum" -> [total |-> <<>>, ctx |-> E]
     [] k.t = "Mean" -> [sum |-> IF k.inner = "DSum" THEN <<>> ELSE 0, count |-> 0, ctx |-> E]
     [] k.t = "VMC" -> [sumsq |-> 0, sum |-> 0, count |-> 0, ctx |-> E]
-    [] k.t = "Vec" -> [els |-> [i \in 1..2 |-> ResetState(k.inner, s.els[i])], ctx |-> E]
+    [] k.t = "Vec" -> [els |-> [i \in 1..Len(k.inners) |-> ResetState(k.inners[i], s.els[i])], ctx |-> E]
     [] k.t = "Store" -> [group |-> <<>>]
     [] k.t = "GroupBy" -> [groups |-> <<>>]
     [] k.t = "Hist" -> [bins |-> InitBins(k), oor |-> 0, ctx |-> E]   \* make_bins() / initial bins / initial_value
@@ -279,10 +322,11 @@ Expected(k, fs) ==
   LET n == Len(fs)  c == LastCtx(fs)  ds == Data(fs) IN
   CASE k.t = "Count" -> Ok(<<V(k.start + n, Put(c, k.name, k.start + n))>>)
     [] k.t = "Sum" -> Ok(<<Out(k.start + SumSeq(ds), c)>>)
-    [] k.t = "DSum" -> Ok(<<Out(PolySeq(PolySum(ds)), c)>>)
+    [] k.t = "DSum" -> Ok(<<Out(PolySeq(PolySum(<<k.dstart>> \o ds)), c)>>)
     [] k.t = "Mean" ->
          IF n = 0 THEN (IF k.poe THEN Ok(<<>>) ELSE ZeroDiv)
-         ELSE Ok(<<Out([s |-> IF k.inner = "DSum" THEN PolySeq(PolySum(ds)) ELSE SumSeq(ds), n |-> n], c)>>)
+         ELSE Ok(<<Out([s |-> IF k.inner = "DSum" THEN PolySeq(PolySum(ds)) ELSE SumSeq(ds), n |-> n], c)>>
+                 \o (IF k.inner = "Sum2" THEN <<Out(SumSeq(ds), c)>> ELSE <<>>))
     [] k.t = "VMC" ->
          IF n = 0 THEN (IF k.poe THEN Ok(<<>>) ELSE ZeroDiv)
          ELSE IF k.corr /\ n = 1 THEN ZeroDiv
@@ -293,9 +337,13 @@ Expected(k, fs) ==
                         vden |-> IF k.corr THEN n * n * (n - 1) ELSE n * n * n,
                         s |-> S, n |-> n], c)>>)
     [] k.t = "Vec" ->
-         LET rs == [i \in 1..2 |-> Expected(k.inner, [j \in 1..n |-> P(ds[j][i])])] IN
-         IF \E i \in 1..2 : ~rs[i].ok THEN Exc("Any")
-         ELSE Ok([j \in 1..Len(rs[1].out) |-> Out(<<rs[1].out[j].d, rs[2].out[j].d>>, c)])
+         \* row j, column i: the j-th result of component i on its own column of the vectors if it has
+         \* one, else None; as many rows as the longest component yields
+         LET m == Len(k.inners)
+             rs == [i \in 1..m |-> Expected(k.inners[i], [j \in 1..n |-> ds[j][i]])] IN
+         IF \E i \in 1..m : ~rs[i].ok THEN Exc("Any")
+         ELSE Ok([j \in 1..SetMax({Len(rs[i].out) : i \in 1..m}) |->
+                    Out([i \in 1..m |-> IF j <= Len(rs[i].out) THEN rs[i].out[j] ELSE Pad], c)])
     [] k.t = "Store" -> IF k.grp THEN Ok(<<P(fs)>>) ELSE Ok(fs)
     [] k.t = "GroupBy" ->
          LET keys == Firsts([j \in 1..n |-> GKey(k, fs[j])], {}) IN
@@ -335,7 +383,7 @@ ResetA == /\ st' = ResetState(ekind, st) /\ ekind' = FreshKind(kind)
 Fill == /\ Len(h) < MaxLen
         /\ \E v \in ValsOf(kind) : FillA(v) /\ h' = Append(h, [op |-> "f", x |-> v])
 Compute == /\ Len(h) < MaxLen /\ ComputeA /\ h' = Append(h, [op |-> "c", x |-> res'])
-Reset == /\ Len(h) < MaxLen /\ ResetA /\ h' = Append(h, [op |-> "r", x |-> 0])
+Reset == /\ Len(h) < MaxLen /\ HasReset(kind) /\ ResetA /\ h' = Append(h, [op |-> "r", x |-> 0])
 Next == Fill \/ Compute \/ Reset
 Spec == Init /\ [][Next]_vars
 
